@@ -81,6 +81,11 @@ func c08Rules(c *Ctx) {
 	// reassignment (members set aside as fixed are deleted from the working assignment and written back at
 	// the end: a partition moved to one of them is lost)
 	movers := map[string]int{"stickyBalanceStrategy.reassignPartition": 5, "stickyBalanceStrategy.processPartitionMovement": 2}
+	for n := range movers {
+		if f := p.Fn(n); f != nil {
+			movers[n] = paramIdxByName(f, "newConsumer", movers[n])
+		}
+	}
 	nMoves := 0
 	for _, fn := range p.Fns {
 		if fn.Pkg != p.Sarama {
@@ -149,6 +154,53 @@ func c08Rules(c *Ctx) {
 	}
 	if nMoves < 2 {
 		c.Unresolved(rule, "calls that move a partition to another member (reassignPartition / processPartitionMovement)")
+	}
+	// the move itself keeps every partition with exactly one owner: it is taken from the list of its actual
+	// current owner (looked up for the very partition moved), appended to the new owner's list, and the owner
+	// map is updated — all on every path
+	if fn := c.NeedFn(rule, "stickyBalanceStrategy.processPartitionMovement"); fn != nil {
+		iPart := paramIdxByName(fn, "partition", 1)
+		iNew := paramIdxByName(fn, "newConsumer", 2)
+		iAssign := paramIdxByName(fn, "currentAssignment", 3)
+		iOwners := paramIdxByName(fn, "currentPartitionConsumer", 5)
+		owner := func(v ssa.Value) bool {
+			lk, ok := strip(v).(*ssa.Lookup)
+			return ok && ParamN(iOwners)(lk.X) && ParamN(iPart)(lk.Index)
+		}
+		removeEv := func(it Item) bool {
+			mu, ok := it.In.(*ssa.MapUpdate)
+			if !ok || !ParamN(iAssign)(mu.Map) || !owner(mu.Key) {
+				return false
+			}
+			cl, ok := strip(mu.Value).(*ssa.Call)
+			if !ok || p.CalleeName(&cl.Call) != "removeTopicPartitionFromMemberAssignments" || len(cl.Call.Args) != 2 {
+				return false
+			}
+			lk, ok := strip(cl.Call.Args[0]).(*ssa.Lookup)
+			return ok && ParamN(iAssign)(lk.X) && owner(lk.Index) && ParamN(iPart)(cl.Call.Args[1])
+		}
+		addEv := func(it Item) bool {
+			mu, ok := it.In.(*ssa.MapUpdate)
+			if !ok || !ParamN(iAssign)(mu.Map) || !ParamN(iNew)(mu.Key) {
+				return false
+			}
+			cl, ok := strip(mu.Value).(*ssa.Call)
+			if !ok {
+				return false
+			}
+			b, ok := cl.Call.Value.(*ssa.Builtin)
+			return ok && b.Name() == "append"
+		}
+		ownEv := func(it Item) bool {
+			mu, ok := it.In.(*ssa.MapUpdate)
+			return ok && ParamN(iOwners)(mu.Map) && ParamN(iPart)(mu.Key) && ParamN(iNew)(mu.Value)
+		}
+		reg := WholeFn(fn)
+		e1, p1 := reg.Escape(removeEv)
+		e2, _ := reg.Escape(addEv)
+		e3, _ := reg.Escape(ownEv)
+		c.Check(!e1 && !e2 && !e3, rule, fn, "sticky:move-keeps-single-owner", nil, "the moved partition is removed from the list of currentPartitionConsumer[partition], appended to the new owner's list, and the owner map updated, on every path",
+			"a move does not take the partition from the list of its actual current owner (currentPartitionConsumer[partition] of the partition being moved), or does not record the new owner: the partition ends up in two members' lists or in none", p1)
 	}
 	// 4. sticky Plan: prior ownership
 	if fn := c.NeedFn(rule, "stickyBalanceStrategy.Plan"); fn != nil {
